@@ -543,6 +543,16 @@ def w_token_advance(prog, body, h, blocks, par, mc):
     calls = _calls_in(prog, body, blocks, R.path_is(adv))
     if calls and every_cycle_passes(body, h, blocks, [b for (b, _, _) in calls]):
         return True, "every cycle calls EvalState::advance(), which increments the token index; the token list is finite"
+    if calls:
+        # `if self.accept(&Token::Add) { .. } else { break }` with accept() = "advance if the token is there, say
+        # whether it was": the cycle that skips advance() is the one on which accept() said no - and leaves the loop.
+        # Decided on feasible paths (sa/vstate.py): with the advance blocks removed no latch of the loop is reached
+        from sa import vstate
+        advb = {b for (b, _, _) in calls}
+        feas = vstate.of(body, prog).feasible(avoid=advb, start=h)
+        latches = [x for x in body.pred[h] if x in blocks]
+        if latches and not any(x in feas for x in latches):
+            return True, "every feasible cycle calls EvalState::advance(): the paths that skip it are those on which the token test failed, and they leave the loop; the token list is finite"
     return False, "a cycle does not consume a token"
 
 
